@@ -3,6 +3,27 @@
 #include "friend.hpp"
 #include "hx.hpp"
 #include <cstdarg>
+#include "dumper.h"
+// second access shim (Phreeqc.h and IPhreeqc.hpp also befriend `TestSelectedOutput`); friend.hpp is shared and not edited
+class TestSelectedOutput {
+public:
+  // true while tidy_punch writes the heading line of the current block (its new_def flag is still set)
+  static bool heading_mode(IPhreeqc* p) {
+    Phreeqc* e = p->PhreeqcPtr;
+    return e->current_selected_output && e->current_selected_output->Get_new_def();
+  }
+  static int pr_punch(IPhreeqc* p) { return p->PhreeqcPtr->pr.punch; }
+  static int pr_dump(IPhreeqc* p) { return p->PhreeqcPtr->pr.dump; }
+  static std::string dump_state(IPhreeqc* p) {
+    dumper& d = p->PhreeqcPtr->dump_info;
+    return std::string("on=") + (d.Get_on()?"1":"0") + " any=" + (d.Get_bool_any()?"1":"0") + " append=" + (d.Get_append()?"1":"0");
+  }
+  static bool high_precision(IPhreeqc* p, int n) {
+    std::map<int, SelectedOutput>& m = p->PhreeqcPtr->SelectedOutput_map;
+    std::map<int, SelectedOutput>::iterator it = m.find(n);
+    return it != m.end() && it->second.Get_high_precision();
+  }
+};
 class TraceIPhreeqc : public IPhreeqc {
 public:
   std::vector<std::string> ev;
@@ -19,7 +40,8 @@ public:
   virtual void log_msg(const char* s){ rec("EV log "+std::to_string(flags())+" "+hx::hex(s)); IPhreeqc::log_msg(s); }
   virtual void error_msg(const char* s, bool stop=false){ rec("EV err "+std::to_string(flags())+" "+(stop?"1 ":"0 ")+hx::hex(s)); IPhreeqc::error_msg(s, stop); }
   virtual void warning_msg(const char* s){ rec("EV warn "+std::to_string(flags())+" "+hx::hex(s)); IPhreeqc::warning_msg(s); }
-  virtual void punch_msg(const char* s){ rec("EV pmsg "+std::to_string(flags())+" "+std::to_string(TestIPhreeqc::cur_user(this))+" "+hx::hex(s)); IPhreeqc::punch_msg(s); }
+  // bit 16 of the flags of a punch_msg event: the text belongs to a heading line written by tidy_punch
+  virtual void punch_msg(const char* s){ rec("EV pmsg "+std::to_string(flags()|(TestSelectedOutput::heading_mode(this)?16:0))+" "+std::to_string(TestIPhreeqc::cur_user(this))+" "+hx::hex(s)); IPhreeqc::punch_msg(s); }
   virtual void fpunchf(const char* name, const char* fmt, double d){
     rec("EV pd "+std::to_string(flags())+" "+std::to_string(TestIPhreeqc::cur_user(this))+" "+hx::hex(name)+" "+hx::hex(fmt)+" "+hx::hexd(d)+" "+hx::hex(render(fmt,d)));
     IPhreeqc::fpunchf(name, fmt, d); }
